@@ -74,7 +74,15 @@ def main() -> int:
     if a.replay:
         case = json.loads(Path(a.replay).read_text())
         try:
-            ok = mod.replay(ctx, case)
+            if case.get("case", {}).get("stream") == "persistent":
+                # shared persistent-object probe (util_lie.persistent_probe): deterministic, re-run the corpus part
+                mod.run(ctx)
+                stale = [f for f in ctx.failures if f["what"].startswith("stale")]
+                for f in stale[:5]:
+                    print("  fails:", f["what"])
+                ok = not stale
+            else:
+                ok = mod.replay(ctx, case)
         except InfraError as e:
             print(f"infrastructure error: {e}", file=sys.stderr)
             return common.EXIT_INFRA
